@@ -444,6 +444,37 @@ func checkAlloc(r *mon.Run, tg *target, b []byte, origin string) {
 	}
 }
 
+// claimsDangerousSize: some position of b looks like a long-form header that
+// claims between 16 MiB and 2^63 bytes. Such inputs are not fed to the
+// no-limit reader entry point: on the unchanged tree it allocates what is
+// claimed (observed: 36 GiB resident from a 9-byte input) and would take the
+// machine down; smaller claims show the same behaviour safely and larger ones
+// end in a recoverable makeslice panic.
+func claimsDangerousSize(b []byte) bool {
+	for i, t := range b {
+		var k int
+		switch {
+		case t >= 0xb8 && t <= 0xbf:
+			k = int(t - 0xb7)
+		case t >= 0xf8:
+			k = int(t - 0xf7)
+		default:
+			continue
+		}
+		if i+1+k > len(b) {
+			k = len(b) - i - 1
+		}
+		var size uint64
+		for _, c := range b[i+1 : i+1+k] {
+			size = size<<8 | uint64(c)
+		}
+		if size > 16<<20 && size < 1<<63 {
+			return true
+		}
+	}
+	return false
+}
+
 // plainReader hides the concrete reader type so that Stream cannot discover the input length.
 type plainReader struct{ r *bytes.Reader }
 
@@ -470,6 +501,10 @@ func checkReader(r *mon.Run, tg *target, b []byte, origin string) {
 					fmt.Sprintf("NewStream(reader,len).Decode(%x) err=%v, DecodeBytes err=%v", clip(b), err, err0), c)
 			}
 		}
+	}
+	if claimsDangerousSize(b) {
+		cnt[c_reader_skipped_dangerous_claim]++
+		return
 	}
 	p := reflect.New(tg.T)
 	var err error
